@@ -126,12 +126,13 @@ def run(prog: Program, rep, tier: str) -> None:
             if is_cb:
                 rep.check(orig_x_ok(m, base.args[0], xparam), "scaled-problem-exponents", m.qualname, short(r),
                           f"the user's {cb} is evaluated at ldexp(x, -v)", m.loc(r))
-    # _orig_x itself
-    ox = sp.methods["_orig_x"]
-    rs = returns_of(ox)
-    base, form = FormReader(prog, ox).peel(facts_for(ox).resolved(rs[0], rs[0].value))
+    # _orig_x itself (if the wrapper still has such a helper; it may also delegate to Scaling.unscale_primal directly)
+    ox = sp.methods.get("_orig_x")
+    if ox is not None:
+        rs = returns_of(ox)
+        base, form = FormReader(prog, ox).peel(facts_for(ox).resolved(rs[0], rs[0].value))
+        rep.check(form == F(v=-1) and U(base) == [p for p in ox.params if p != "self"][0], "scaled-problem-exponents", ox.qualname, short(rs[0]), "_orig_x(x) = ldexp(x, -v)", ox.loc())
     n_ldexp += 1
-    rep.check(form == F(v=-1) and U(base) == [p for p in ox.params if p != "self"][0], "scaled-problem-exponents", ox.qualname, short(rs[0]), "_orig_x(x) = ldexp(x, -v)", ox.loc())
 
     # matrices
     for name, cb, want in (("cons_jac", "cons_jac", F(c_row=1, v_col=-1)), ("lag_hess", "lag_hess", F(o=1, v_row=-1, v_col=-1))):
